@@ -146,14 +146,18 @@ ZLines == ZWords \cup {WithNL(w) : w \in ZWords}
 
 Atoms == {<<"lit", "a">>, <<"lit", "b">>, <<"lit", "E">>, <<"lit", "$">>, <<"lit", "B">>, <<"lit", "]">>, <<"any">>, <<"cls", <<"a", "b">>>>}
 RWords == SeqsUpTo(Sigma \cup {"$"}, 3) \cup SeqsUpTo(Sigma \cup {"$", "B", "]"}, 2)      \* (backslash / bracket only in short lines)
-RLines == RWords \cup {WithNL(w) : w \in RWords}
+BraceWords == {<<"{", "}">>, <<"a", "{", "}">>, <<"{", "a", "}">>, <<"{", "}", "b">>, <<"a">>, <<"{">>, <<"a", "a">>}
+RLines == RWords \cup {WithNL(w) : w \in RWords} \cup BraceWords \cup {WithNL(w) : w \in BraceWords}
 Ops(S, T) == {<<"rep", x, o>> : x \in S, o \in {"*", "?", "+"}}
              \cup {<<"cat", x, y>> : x \in S, y \in T} \cup {<<"alt", x, y>> : x \in S, y \in T}
 L1 == Atoms \cup Ops(Atoms, Atoms)
 Small == {<<"lit", "a">>, <<"lit", "b">>, <<"any">>, <<"rep", <<"lit", "a">>, "*">>, <<"rep", <<"lit", "b">>, "?">>,
           <<"cat", <<"lit", "a">>, <<"lit", "b">>>>, <<"alt", <<"lit", "a">>, <<"lit", "b">>>>,
           <<"alt", <<"lit", "E">>, <<"lit", "a">>>>, <<"lit", "$">>}
-Regexes == IF Tier = "quick" THEN L1 \cup Ops(Small, Small) ELSE L1 \cup Ops(Small, L1) \cup Ops(L1, Small)
+\* braces that are no repetition quantifier (`{}`, `a{}`, `{a}`) are ordinary characters
+Brace(x) == <<"cat", <<"lit", "{">>, IF x = <<>> THEN <<"lit", "}">> ELSE <<"cat", x, <<"lit", "}">>>>>>
+BraceRegexes == {Brace(<<>>), <<"cat", <<"lit", "a">>, Brace(<<>>)>>, Brace(<<"lit", "a">>), <<"cat", Brace(<<>>), <<"lit", "b">>>>}
+Regexes == (IF Tier = "quick" THEN L1 \cup Ops(Small, Small) ELSE L1 \cup Ops(Small, L1) \cup Ops(L1, Small)) \cup BraceRegexes
 
 GlobPatterns == SeqsUpTo(Sigma \cup {"?", "*"}, IF Tier = "quick" THEN 3 ELSE 4)
 CramAlpha    == {"a", "*", "?", "B", "|"}       \* `|` is an ordinary character of a glob
